@@ -9,6 +9,7 @@ pub mod c05;
 pub mod c06;
 pub mod c07;
 pub mod c08;
+pub mod c09;
 pub mod c10;
 pub mod c11;
 pub mod c12;
@@ -36,6 +37,7 @@ pub fn all() -> Vec<Property> {
         Property { id: "C06", run: c06::run, replay: c06::replay },
         Property { id: "C07", run: c07::run, replay: c07::replay },
         Property { id: "C08", run: c08::run, replay: c08::replay },
+        Property { id: "C09", run: c09::run, replay: c09::replay },
         Property { id: "C10", run: c10::run, replay: c10::replay },
         Property { id: "C11", run: c11::run, replay: c11::replay },
         Property { id: "C12", run: c12::run, replay: c12::replay },
